@@ -495,9 +495,10 @@ class TorrentFileStream:
         # `skip_bytes` is the number of bytes from `fh` to dump before
         # reading the next piece.
 
-        if skip_bytes:
-            skipped = fh.seek(skip_bytes)
-            skip_bytes -= skipped
+        # Always seek because `fh` may be a re-used file handle that was already
+        # read from
+        skipped = fh.seek(skip_bytes)
+        skip_bytes -= skipped
 
         def iter_pieces(fh, prepend):
             piece_size = self._torrent.piece_size
